@@ -40,6 +40,10 @@ func (ms *momentumStore) GetMomentumsByHash(blockHash types.Hash, higher bool, c
 	if err != nil {
 		return nil, err
 	}
+	if momentum == nil {
+		// unknown hash: GetMomentumByHash reports a missing momentum as (nil, nil)
+		return nil, nil
+	}
 	return ms.GetMomentumsByHeight(momentum.Height, higher, count)
 }
 func (ms *momentumStore) GetMomentumByHeight(height uint64) (*nom.Momentum, error) {
